@@ -558,6 +558,53 @@ func c17NestedModuleDecidedFirst(c *Ctx) {
 		c.broken("anchor: yieldAllModFiles no longer yields package files from a loop over the directory entries")
 	}
 	ok := scan != nil && scan != firstYield && scan.End() < firstYield.Pos() && !isYield(scan.Body)
+	if scan == nil {
+		// the scan may live in a helper: an early return before the yielding loop,
+		// guarded by a call to a package function that compares entry names with "cue.mod"
+		ast.Inspect(f.Body, func(x ast.Node) bool {
+			is, isIf := x.(*ast.IfStmt)
+			if !isIf || is.End() > firstYield.Pos() {
+				return true
+			}
+			returns := false
+			for _, st := range is.Body.List {
+				if _, isRet := st.(*ast.ReturnStmt); isRet {
+					returns = true
+				}
+			}
+			if !returns {
+				return true
+			}
+			ast.Inspect(is.Cond, func(y ast.Node) bool {
+				call, isCall := y.(*ast.CallExpr)
+				if !isCall {
+					return true
+				}
+				nm := calleeName(info, call)
+				if !strings.HasPrefix(nm, "internal/mod/modimports.") {
+					return true
+				}
+				h := c.fnOpt("internal/mod/modimports", strings.TrimPrefix(nm, "internal/mod/modimports."))
+				if h == nil {
+					return true
+				}
+				mentions := false
+				ast.Inspect(h.Body, func(z ast.Node) bool {
+					if e, isExpr := z.(ast.Expr); isExpr {
+						if v, isConst := constString(h.Info(), e); isConst && v == "cue.mod" {
+							mentions = true
+						}
+					}
+					return true
+				})
+				if mentions && !isYield(h.Body) {
+					ok = true
+				}
+				return true
+			})
+			return true
+		})
+	}
 	pos := firstYield.Pos()
 	c.check(rule, f.Name, pos, ok,
 		"whether the directory is a nested module (has a cue.mod entry) must be decided by a scan of all entries that completes before the first file is yielded; entries are sorted by name, so a test folded into the yielding loop lets files sorting before \"cue.mod\" through")
